@@ -237,6 +237,14 @@ func checkC08(c C08Case) Verdict {
 	for _, fq := range fqs {
 		dataSets = append(dataSets, toDataMap(c.Prog.AllData[fq]))
 	}
+	for i := range dataSets {
+		// (maps the application built itself may hold Go nils - entries no template of the bundle reads:
+		// they are the application's own, like every other entry)
+		if dataSets[i] != nil && i%2 == 0 {
+			dataSets[i]["zzNilEntry"] = nil
+			dataSets[i]["zzNilItems"] = data.List{nil, data.Map{"zzInner": nil}}
+		}
+	}
 	for _, d := range c.Datas {
 		dataSets = append(dataSets, toDataMap(d))
 	}
